@@ -201,8 +201,20 @@ def run_case(case, V, env):
             res = obj.get_result()
         except ValueError as e:
             return "ValueError", [], dict(seen=seen, xi=obj.xi, msg=str(e))
+        # the cached object answers every further request for this point (listed twice, shared by cross sections, a second
+        # Runner.get_result): the formula must hold on every evaluation, so a second one has to return the same tensors
+        n_first = len(seen)
+        res2 = obj.get_result()
+        del seen[n_first:]
     xi_ref, terms = oracle(kind, mode, V, env, flav)
     pairs = [("xi", obj.xi, xi_ref), ("result.x", res.x, V["x"]), ("result.Q2", res.Q2, V["Q2"])]
+    for o in ORDERS:
+        a, b = res.orders.get(o), res2.orders.get(o)
+        if a is None or b is None:
+            pairs.append((f"second evaluation has order {o}", (a is None) == (b is None), True))
+            continue
+        pairs.append((f"second evaluation value{o}", b[0][0, 0], a[0][0, 0]))
+        pairs.append((f"second evaluation error{o}", b[1][0, 0], a[1][0, 0]))
     for lab, jj, xarg, a0 in seen:
         pairs.append((f"convolution point of {lab}[{jj}] is xi", xarg, xi_ref))
         pairs.append((f"kernel argument of {lab}[{jj}] is xi", a0, xi_ref))
